@@ -1327,5 +1327,5 @@ def iso_fragmentation():
             ('last-flag-off-by-one', ('is_last_fragment = bytes_remaining == fragment_length', 'is_last_fragment = bytes_remaining <= fragment_length + 1')),
             ('offset-not-advanced', ('offset += fragment_length', 'offset += 0'))]
     return {'name': 'send_iso_sdu-iteration', 'kernel': 'bumble.host.Host.send_iso_sdu (while-loop body)',
-            'bounds': 'one iteration from any loop-head state: SDU 0..70000 bytes, ISO packet size 5..65535, first or later fragment, any offset: the fragment is the next min(remaining, size - header) bytes, total length <= size, PB flag = complete / first / continuation / last exactly by position, the SDU length and sequence number are in the first fragment only and the link's sequence number does not move inside the loop, offset + remaining is conserved, progress (an empty SDU is one complete packet)',
+            'bounds': 'one iteration from any loop-head state: SDU 0..70000 bytes, ISO packet size 5..65535, first or later fragment, any offset: the fragment is the next min(remaining, size - header) bytes, total length <= size, PB flag = complete / first / continuation / last exactly by position, the SDU length and sequence number are in the first fragment only and the sequence number of the link does not move inside the loop, offset + remaining is conserved, progress (an empty SDU is one complete packet)',
             'fn': fn, 'validate': validate, 'replay': replay, 'mutants': [(n, (lambda r=r: fn(r))) for n, r in muts]}
